@@ -55,3 +55,27 @@ func verif_harness_C18_resolver_rotation() {
 		}
 	}
 }
+
+// C18 (4) — two goroutines resolve through the custom resolver at the same
+// time: the rotation counter is only touched atomically (no data race), and
+// the two dials get different addresses.
+//
+//verif:harness engine=gobmc unwind=16 replay=none autoshared=1 queries=cut,bad,race,deadlock bmctimeout=600
+func verif_harness_C18_resolver_race() {
+	r := &resolver{addrs: []string{"a", "b"}}
+	done := make(chan struct{})
+	verif_chan_name(done, "done")
+	for w := 0; w < 2; w++ {
+		go func() {
+			if r.address() == "a" {
+				verif_ghost_add("got_a", 1)
+			} else {
+				verif_ghost_add("got_b", 1)
+			}
+			done <- struct{}{}
+		}()
+	}
+	<-done
+	<-done
+	verif_assert(verif_ghost_add("got_a", 0) == 1 && verif_ghost_add("got_b", 0) == 1, "C18.resolver.concurrent-dials-rotate")
+}
